@@ -39,7 +39,10 @@ def run(tier, argv):
     rep.cov["rule"] = ("%d schemas whose examples obey their rules (Check must pass and Validate must accept the schema's own example) and %d "
                        "single-rule corruptions in 4-7 container contexts (Check must fail at the offset of the corrupted value); the "
                        "obey/violate classification is checked by TLC against Sem!Verdict" % (s["good"], s["bad"]))
+    dbad = semcommon.diff_tier(work, rep, hbin, PROP, 30000 if quick else 1500000)
+    for b in dbad[:20]:
+        rep.violation(b, "%s: %s | %s" % (b["want"], b["schema"].replace("\n", "\\n")[:200], json.dumps(b["got"])[:160]))
     for b in bad[:40]:
         rep.violation(b, "%s: %s | want_pos %s got %s" % (b["what"], b["schema"].replace("\n", "\\n")[:200], b["want_pos"], json.dumps(b["got"])[:200]))
-    rep.violations = len(bad)
+    rep.violations = len(bad) + len(dbad)
     rep.finish()
